@@ -258,7 +258,9 @@ class EditDistance(SequenceEdit):
                     ret = False
                 if not ret:
                     self._cleanup()
-                return ret
+                # completing the matrix replaces the fringe estimate by the exact cost: that is progress too
+                return ret or self.bounds().upper_bound < initial_bounds.upper_bound or \
+                    self.bounds().lower_bound > initial_bounds.lower_bound
 
             if not first_fringe:
                 if DEFAULT_PRINTER.quiet:
